@@ -267,20 +267,19 @@ func (c *SessionCache) Invalidate(id string) bool {
 	defer c.mu.Unlock()
 
 	_, ok := c.sessions[id]
-	if !ok {
-		return false
-	}
-
 	delete(c.sessions, id)
 
-	// Remove all command mappings to this session
+	// Remove all command mappings to this session -- also when no entry is left:
+	// LookupNonExpired deletes an expired entry but not its mappings, and a mapping
+	// that outlives its session would route to whatever is stored under the same
+	// identifier later.
 	for key, sessID := range c.commandMap {
 		if sessID == id {
 			delete(c.commandMap, key)
 		}
 	}
 
-	return true
+	return ok
 }
 
 // forget removes whatever the cache holds under a session identifier: the entry, if there is
